@@ -17,8 +17,39 @@ def undefined_iff(ck, part, res):
         if (i == 'U') != (m == 'U') and (i[:1] in 'UV') and (m[:1] in 'UV'):
             ck.failing_case(c, r, 'direct:undefined-iff: implementation reports %s where the model has %s' % (i[:60], m[:60]))
 
+EXTREME = ['1e308', '-1e308', '1.7976931348623157e308', '-1.7976931348623157e308', '9e307', '5e-324', '-5e-324', '0', '-0', '1', '-1', '2', '0.5', '1e-308', '1e200', '-1e200', '1e154', '1.5e154']
+
+def cases(tier, seed):
+    """C09's programs, plus every number-producing operation at the edge of the double range: a nil
+    error must never come with an infinity or a NaN, wherever the number ends up in the result."""
+    import itertools, random
+    rng = random.Random(seed)
+    out = C09.cases(tier, seed)
+    n = 0
+    def add(expr, doc, tags=()):
+        nonlocal n; n += 1
+        out.append({'id': 'x%d' % n, 'kind': 'eval', 'expr': expr, 'input': doc, 'tags': list(tags)})
+    wrappers = ['%s', '[%s]', '{"k": %s}', '$map([1], function($v){%s})', '[1, [%s]]', '($x := %s; $x)', '$string(%s)', '(%s) = (%s)']
+    for op in ['+', '-', '*', '/', '%']:
+        for a, b in itertools.product(EXTREME, EXTREME):
+            w = rng.choice(wrappers) if tier == 'quick' else None
+            for ww in ([w] if w else wrappers):
+                e = '(%s) %s (%s)' % (a, op, b)
+                add(ww.replace('%s', e), None, ('edge', 'binop'))
+            add('a %s b' % op, {'a': float(a), 'b': float(b)}, ('edge', 'binop-doc'))
+    for a in EXTREME:
+        for f in ['-(%s)', '$abs(%s)', '$floor(%s)', '$ceil(%s)', '$round(%s)', '$round(%s, 2)', '$round(%s, -2)', '$round(%s, -308)', '$round(%s, 308)', '$sqrt(%s)', '$number("%s")', '$number("%s0")', '$string(%s)',
+                  '$power(%s, 2)', '$power(%s, -1)', '$power(%s, 0.5)', '$power(2, %s)', '$power(10, %s)', '$sum([%s, %s])', '$sum([%s, %s, %s])', '$average([%s, %s])', '$max([%s, 1])', '$min([%s, 1])',
+                  '$reduce([%s, %s], function($p, $q){$p + $q})', '$reduce([%s, %s], function($p, $q){$p * $q})', '$formatBase(%s, 2)', '$formatNumber(%s, "0")', '$formatNumber(%s, "0.0e0")', '$formatNumber(%s, "0%%")',
+                  '[1..%s]', '$count([1..%s])', '$pad("x", %s)', '$substring("abc", %s)', '$fromMillis(%s)', '$sum(a.(%s * 2))', '[%s][0] * [%s][0]', '$number($string(%s) & "0")', '$number("%se1")', '%s * 10 / 10']:
+            e = f.replace('%s', a) if '%%' not in f else f.replace('%s', a).replace('%%', '%')
+            if ('[1..' in e or '$pad' in e) and a not in ('0', '-0', '1', '-1', '2', '0.5', '5e-324', '-5e-324', '1e-308'):
+                continue  # sizes are bounded (C09's quantifier)
+            add(e, {'a': [1, 2]}, ('edge', 'unary'))
+    return out
+
 def run(tier, seed, replay=None):
     return simple_run('C10', tier, seed + 7, replay,
-        'same generator as C09 (directed and chaotic programs, every built-in, JSON inputs incl. nulls): every nil-error result is walked for non-JSON dynamic types and non-finite numbers, '
+        'every arithmetic operator on all ordered pairs of 18 edge-of-range operands (literal and from the document, nested in arrays/objects/$map results) and 39 numeric built-in forms on each; same generator as C09 (directed and chaotic programs, every built-in, JSON inputs incl. nulls): every nil-error result is walked for non-JSON dynamic types and non-finite numbers, '
         'marshalled, and compared with EvalBytes on the same input text; ErrUndefined is compared with the model verdict "no value"; distinct = distinct (expression, input)',
-        C09.cases, owner_direct=('json', 'evalbytes'), value_compare=False, panics_are='C09', post=undefined_iff)
+        cases, owner_direct=('json', 'evalbytes'), value_compare=False, panics_are='C09', post=undefined_iff)
